@@ -321,6 +321,7 @@ inductive COp where
   | sleep (ns : Nat)
   | work
   | touch (key : String)
+  | hot (key : String) (packed : Bool)
 deriving Repr, Inhabited
 
 /-- `dnsCacheBaseKey` -/
@@ -390,6 +391,18 @@ def cstep (σ : CState) : COp → CState
     match alLookup key σ.cache with
     | none => σ
     | some e => { σ with cache := alInsert key { e with lastAccess := σ.now } σ.cache }
+  | .hot key packed =>
+    -- `LookupDnsRespCache_(msg, key, false)`, the lookup on the DNS hot path. `packed` = a pre-packed
+    -- response is available for the entry (C08's subject; told to the model by the harness).
+    match alLookup key σ.cache with
+    | none => σ
+    | some e =>
+      let e1 : Entry := { e with lastAccess := σ.now }
+      let σ1 : CState := { σ with cache := alInsert key e1 σ.cache }
+      if σ.now < e.deadline then (if packed then σ1.trigger key e1 else σ1)
+      else if σ.cfg.optEnabled && packed &&
+          (σ.cfg.optTtl == 0 || decide (σ.now ≤ e.deadline + σ.cfg.optTtl * sec)) then σ1   -- stale answer served
+      else σ1.evict key
 
 def crun (σ : CState) (ops : List COp) : CState := ops.foldl cstep σ
 
